@@ -16,6 +16,7 @@ import (
 	"github.com/juev/hledger-lsp/internal/include"
 	"github.com/juev/hledger-lsp/internal/lsputil"
 	"github.com/juev/hledger-lsp/internal/parser"
+	"github.com/juev/hledger-lsp/internal/verifhook"
 	"github.com/juev/hledger-lsp/internal/workspace"
 )
 
@@ -226,6 +227,8 @@ func (s *Server) DidSave(ctx context.Context, params *protocol.DidSaveTextDocume
 }
 
 func (s *Server) publishDiagnostics(ctx context.Context, docURI protocol.DocumentURI, content string) {
+	verifhook.Point("diag.start", string(docURI), content)
+	defer verifhook.Point("diag.done", string(docURI), content)
 	if s.client == nil {
 		return
 	}
@@ -270,6 +273,7 @@ func (s *Server) publishDiagnostics(ctx context.Context, docURI protocol.Documen
 		})
 	}
 
+	verifhook.Point("diag.publish", string(docURI), content)
 	_ = s.client.PublishDiagnostics(ctx, &protocol.PublishDiagnosticsParams{
 		URI:         docURI,
 		Diagnostics: diagnostics,
